@@ -5,6 +5,7 @@
 #include "pgm/pgm_index.hpp"
 #include "pgm/pgm_index_variants.hpp"
 #include <dirent.h>
+#include <deque>
 
 static int g_chunks = 1;   // answered to the library's omp_get_num_procs / omp_get_max_threads (chunks run sequentially)
 extern "C" int omp_get_num_procs(void) noexcept { return g_chunks; }
@@ -154,7 +155,8 @@ struct Explorer {
             auto add = [&](size_t len, bool far) { if (len == 0) return; v = K(v + (far ? 1000 : 1)); for (size_t i = 0; i < len; ++i) data.push_back(v); };
             add(L[l0], false); add(L[l1], gaps & 1); add(L[l2], gaps & 2);
             if (data.empty()) continue;
-            std::string desc = "runs=" + std::to_string(L[l0]) + "," + std::to_string(L[l1]) + "," + std::to_string(L[l2]) + ",gaps" + std::to_string(gaps);
+            if (sizeof(K) >= 8 && (l1 + l2) % 3 == 0) { K last = K(data.back() + (K(1) << 40)); data.push_back(last); data.push_back(K(last + 3)); }   // an astronomically wide gap after the runs
+            std::string desc = "runs=" + std::to_string(L[l0]) + "," + std::to_string(L[l1]) + "," + std::to_string(L[l2]) + ",gaps" + std::to_string(gaps) + ((sizeof(K) >= 8 && (l1 + l2) % 3 == 0) ? ",far" : "");
             if (l1 == 12 && l2 == 3 && gaps == 1) run.sample(case_of(desc, ""));
             check_c11(data, desc);
         }
@@ -182,6 +184,7 @@ struct Explorer {
         auto p = mc::split(spec, ','); std::vector<K> data; K v = 5; int gaps = atoi(p[3].c_str() + 4);
         auto add = [&](size_t len, bool far) { if (len == 0) return; v = K(v + (far ? 1000 : 1)); for (size_t i = 0; i < len; ++i) data.push_back(v); };
         add(strtoul(p[0].c_str(), 0, 10), false); add(strtoul(p[1].c_str(), 0, 10), gaps & 1); add(strtoul(p[2].c_str(), 0, 10), gaps & 2);
+        if (p.size() > 4 && p[4] == "far") { K last = K(data.back() + (K(1) << 40)); data.push_back(last); data.push_back(K(last + 3)); }
         return data;
     }
 
@@ -205,7 +208,8 @@ struct Explorer {
     }
 
     void run_history(const std::vector<K> &data, const std::vector<K> &queries, const std::string &hist, const std::string &desc) {
-        std::string cs = case_of(desc, "hist=" + hist);
+        bool use_deque = (std::hash<std::string>()(hist) + data.size()) % 2 == 1;
+        std::string cs = case_of(desc, "hist=" + hist + (use_deque ? " source=deque" : " source=vector"));
         run.set_case(cs);
         run.add(cn.histories);
         std::string f1 = g_dir + "/f1.bin", f2 = g_dir + "/f2.bin", raw = g_dir + "/raw.bin";
@@ -218,7 +222,10 @@ struct Explorer {
             if (!ok) break;
             run.add(cn.steps);
             try {
-                if (op == "R") { live.push_back({new Index(data.begin(), data.end(), f1), 1, "range-created container"}); run.add(cn.containers); bytes1 = file_bytes(f1); s1 = snap(*live.back().ix); have1 = true; }
+                if (op == "R") {
+                    // the range constructor accepts any random-access range: every other history passes a std::deque (not contiguous)
+                    if (use_deque) { std::deque<K> dq(data.begin(), data.end()); live.push_back({new Index(dq.begin(), dq.end(), f1), 1, "range-created container (from std::deque)"}); }
+                    else live.push_back({new Index(data.begin(), data.end(), f1), 1, "range-created container"}); run.add(cn.containers); bytes1 = file_bytes(f1); s1 = snap(*live.back().ix); have1 = true; }
                 else if (op == "W") { live.push_back({new Index(raw, f2), 2, "raw-file-created container"}); run.add(cn.containers); bytes2 = file_bytes(f2); s2 = snap(*live.back().ix); have2 = true; }
                 else if (op == "O1" || op == "O2") {
                     int which = op == "O1" ? 1 : 2;
@@ -249,7 +256,9 @@ struct Explorer {
     // tear down a neighbouring mapping
     void page_family() {
         size_t per_page = 4096 / sizeof(K);
-        for (size_t n : {per_page - 1, per_page, per_page + 1, 2 * per_page, 2 * per_page - 3}) {
+        size_t per_mib = (size_t(1) << 20) / sizeof(K);
+        for (size_t n : {per_page - 1, per_page, per_page + 1, 2 * per_page, 2 * per_page - 3, per_mib, per_mib + 1}) {
+            if (n > 70000 && sizeof(K) < 4) continue;   // a 16-bit key type cannot hold that many distinct keys of this shape
             std::vector<K> data(n); for (size_t i = 0; i < n; ++i) data[i] = K(K(1) + K(i % 1000) * 3 + K(i / 1000) * 3000);
             std::sort(data.begin(), data.end());
             std::string desc = "pagefamily_n=" + std::to_string(n);
